@@ -222,6 +222,8 @@ def check_node(node, st, fl):
         r.own = True
         return r
     if op in ('identity', 'do_action', 'assert_', 'assert_1'):
+        if node.get('pred') is not None and (op != 'assert_' or node['pred'] not in F.ASSERT_PREDS):
+            raise Invalid('assert predicate')
         return st.copy()
     if op == 'progress':
         if node['threshold'] < 1:
@@ -691,7 +693,7 @@ def build_node(node, ctx, mode, path, i):
     if op == 'do_action':
         return rs.ops.do_action(on_next=F.noop)
     if op == 'assert_':
-        return rs.ops.assert_(F.always_true, name='sim')
+        return rs.ops.assert_(F.ASSERT_PREDS[node['pred']] if node.get('pred') else F.always_true, name='sim')
     if op == 'assert_1':
         return rs.ops.assert_1(F.PRED2['t2'], name='sim')
     if op == 'progress':
